@@ -54,6 +54,7 @@ type FuncContract struct {
 	Used      bool
 	Implicit  bool
 	FrameOnly bool // verified for its frame only: may panic, callee preconditions are not obligations (callee ensures are assumed only under them)
+	Borrows   []string    // parameters the callee neither retains nor describes in its clauses: objects reachable only through them are not published at the call
 	FreshObjs []writeSpec // objects reachable from the results that the callee allocated (heap, address term over the post-state; -1 = none)
 	Writes    []writeSpec // single objects (heap, address term) the function may write besides its own allocations
 }
@@ -96,7 +97,7 @@ type Contracts struct {
 	Prelude []string // raw SMT text blocks from contract files (//@ smt ...)
 }
 
-var clauseHead = regexp.MustCompile(`^(func|extern|requires|ensures|panics|may_panic|modifies|loop|inline|trusted|pure|tags|ghost|let|global|lemma|axiom|fresh|unroll|noverify|calls|expect|smt|havoc_all|publishes|writes|fresh_obj|frame_only)\b(\[[^\]]*\])?\s*(.*)$`)
+var clauseHead = regexp.MustCompile(`^(func|extern|requires|ensures|panics|may_panic|modifies|loop|inline|trusted|pure|tags|ghost|let|global|lemma|axiom|fresh|unroll|noverify|calls|expect|smt|havoc_all|publishes|writes|fresh_obj|frame_only|borrows)\b(\[[^\]]*\])?\s*(.*)$`)
 
 func loadContracts(files []string) (*Contracts, error) {
 	cs := &Contracts{Funcs: map[string]*FuncContract{}}
@@ -266,6 +267,8 @@ func (cs *Contracts) loadFile(path string) error {
 				case "panics":
 					c.Panics = cl
 				}
+			case "borrows":
+				c.Borrows = append(c.Borrows, strings.Fields(r.rest)...)
 			case "may_panic":
 				c.MayPanic = true
 			case "frame_only":
